@@ -10,6 +10,27 @@ claimed = {
    text="The uploader functions that decide what a completed multipart upload stores (UploadPart, CompleteMultipartUpload, AbortMultipartUpload, bucketUploads.remove, partsAreSorted/partIDs, getUnlocked) are verified against contracts taken from the property: a rejected complete leaves uploader and store untouched (unchanged()), a listed part must exist with a matching ETag, order is checked against the real request order, on success exactly one PutObject with the upload's metadata and a body whose length is the sum of the listed parts, and the upload id is removed. All loop iterations and all inputs; no bound.",
    note="Trusted: gvc, go/ssa, solvers; assumed contracts for skiplist, io, hash, bytes (trusted_base in the evidence); the Backend.PutObject interface contract (ghost call log); physical assumption 'mem' (listed parts are resident, so their total size fits the allocator). Byte-level equality of the concatenated body is not yet a discharged clause (length is).",
    technique="contract-based deductive verification: weakest-precondition VCs over go/ssa with //@ contracts, discharged by z3/cvc5", design="7 (C06)"),
+
+ "C05": dict(category="proof",
+   text="The memory backend's versioning functions (bucket.put, rm, rmVersion, object, objectVersion, setVersioning and the Backend methods built on them) are verified against one-step contracts over the abstract view {current version} + {archived versions}: an enabled put archives the previous current version under its id and keeps every archived entry, a plain delete adds a marker and archives, deleting a version removes exactly that id and promotes the newest remaining one, lookups by id return the entry filed under it. All inputs, no bound. Two obligations (history of put/rm while suspended) fail and are listed as known finding D20.",
+   note="Relative to the bucket representation invariant bucketInv/idsIssued, which every method assumes at entry; its preservation by put/rm/rmVersion is stated but NOT discharged (listed in the evidence as waived obligations). Trusted: skiplist model (libcontracts/skiplist.gvc), version-id generator freshness (funcfield bucket.versionGen).",
+   technique=T, design="7 (C05)"),
+ "C08": dict(category="proof",
+   text="Digest and length checks (newHashingReader, hashingReader.Read, ReadAll) and the rejection paths of createObject, copyObject, CopyObject, UploadPart, CompleteMultipartUpload and s3mem PutObject are verified: a rejected call returns with the stored state unchanged (unchanged() / store_gen clauses), the digest is compared at EOF, a length mismatch is IncompleteBody.",
+   note="The filesystem backends' PutObject (truncate-then-copy, size ignored: D14, D18 of DESIGN.md) and the bolt backend are outside the verified set; the handler-level clauses rely on the Backend.PutObject interface contract for them. ReadAll's make obligation is known finding D22.",
+   technique=T, design="7 (C08)"),
+ "C09": dict(category="proof",
+   text="Panic-freedom and well-formed error mapping for the routed surface of the root package: every index, slice, nil-dereference, type-assertion, make, division, nil-map-write and explicit-panic site, every integer-overflow site and every mutex operation in 70+ functions (routing, all handlers, parameter parsing, uploader, streaming readers, error constructors, ErrorCode.Status) is an obligation discharged from contracts; chunkedReader.Read also has a termination measure. Known finding D22 (huge declared length).",
+   note="Handlers assume gInv (what New establishes) and rqInv (what net/http guarantees about a request); calls into net/http, encoding/xml, time are assumed contracts. s3mem functions are included as far as they are under contract; bolt/afero backends are not.",
+   technique=T, design="7 (C09)"),
+ "C12": dict(category="proof",
+   text="chunkedReader.Read is verified against step relations taken from the framing in the statement: in data mode exactly the bytes delivered are consumed and counted however short the inner reads are; a header iteration consumes 2 (after the first chunk) + header + 82 bytes and installs the parsed size; bounds, termination, refinement of io.Reader. createObject passes a non-negative decoded length; ReadAll/PutObject(mem) reject length mismatches.",
+   note="Content of the chunk-signature bytes is not validated by the code and not specified. fs backends ignore the declared size (D18). Assumed: io.Reader/io.CopyN/fmt.Fscanf contracts, finite streams.",
+   technique=T, design="7 (C12)"),
+ "C17": dict(category="proof",
+   text="ValidateBucketName is proved equivalent to the statement's regular language (labels, single dots, 3..63, not IPv4) in the SMT theory of strings/regular expressions for all strings; createBucket refuses before any storage call. The label loop uses two assumed clauses about strings.Split which are validated by bounded enumeration.",
+   note="Regular-language goals are decided by z3 5.1.0 only (no second opinion). Bounded: split lemma (all strings over {a,0,-,.} up to length 9) and the regexp->RegLan translator (differential against package regexp).",
+   technique=T+" (theory of strings)", design="7 (C17)"),
 }
 na = {
  "C15": "not applicable: restart/crash durability rests on bbolt's commit protocol, OS file semantics and BSON/JSON encoders, none of which is /repo code a function contract can express (DESIGN.md section 11)",
